@@ -48,6 +48,12 @@ CHECKS = {
          '4 000 (quick) / 64 000 (thorough) generated programs, each rendered in the default spelling, with enable_data_attributes switched on, and in 4 re-spellings (per-statement choice of default prefix / renamed prefix / data attribute; declarations on the element, an ancestor or the root; unprefixed statements on tal:-namespace elements, also with a renamed element prefix); all renderings must be equal, leak-free, and every rendered start tag must carry exactly the foreign attributes written on its source element, in order.',
          'Trusted: html.parser and the 20-line strict tag scanner; the generator keeps programs valid (no content+replace etc.).',
          'DESIGN.md §3 C18'),
+ 'C15': ('fault-injector+differential',
+         'runtime fault injection on the real ModuleLoader: os._exit at every file-system audit event and every LINE event (sys.monitoring) of build/_load, in-process KeyboardInterrupt/MemoryError at LINE events, strace SIGKILL at every syscall on the entry paths, parked second writer; differential cache vs no-cache renders for one-option configuration pairs sharing a cache directory',
+         'fault_enumeration',
+         'Crash points are enumerated from a complete run of the current tree (12 audit steps + 33 line steps per stored module today; 3 templates incl. a 700 kB module; plus every write/rename/close/openat syscall on the temporary file and the entry): after each crash a fresh process on the same directory must render the reference and every *.py entry must equal the complete module. 18 one-option pairs x 2 orders x same/two processes compared against no-cache renders. 24 two-writer schedules (A parked at each step while B stores the same entry).',
+         'Trusted: POSIX rename atomicity and program-order application of file-system operations (crash model = process death, not power loss); strace injection on syscall entry; id()-derived numbers in generated identifiers are normalised before comparing module sources.',
+         'DESIGN.md §3 C15'),
 }
 NOT_YET = {}
 
